@@ -58,6 +58,10 @@ def stream_cfg(open_keys, clash=False):
     cfg.for_bound_mutated = False
     # the evaluator evaluates the first element of a literal twice: a printing call there is an open finding (clash stream: always)
     cfg.literal_first_effect = True if clash else ('c03:array-literal-first-element-twice' not in open_keys)
+    # strings as computed values; str_substring only with 0 <= start < length while the evaluator yields void at / past the end
+    cfg.strops = True
+    cfg.str_self_assign = 'c03:string-self-assign-crash' not in open_keys     # nanoc aborts (free(): invalid pointer): no stream can use it
+    cfg.substr_past_end = True if clash else ('c03:builtin:str_substring:start-at-or-past-the-end-is-void-in-the-evaluator' not in open_keys)
     return cfg
 
 
